@@ -44,6 +44,15 @@ def unquote_string_token(value, quote):
     return re.sub(pattern, decode, value)
 
 
+def param_to_identifier(name, value):
+    # value of a USING parameter that names an object: `param = name` or `param = 'name'`
+    if isinstance(value, Identifier):
+        return value
+    if not isinstance(value, str) or value == '':
+        raise ParsingException(f"Parameter '{name}' must be a name, got: {value!r}")
+    return Identifier(value)
+
+
 def variable_token_to_name(value):
     # remove the sigil and the quotes of a variable token
     value = value.lstrip('@')
@@ -141,13 +150,13 @@ class MindsDBParser(Parser):
         model = params.pop('model', None)
         storage = params.pop('storage', None)
 
-        if isinstance(model, str):
+        if storage is not None:
             # convert to identifier
-            storage = Identifier(storage)
+            storage = param_to_identifier('storage', storage)
 
-        if isinstance(model, str):
+        if model is not None:
             # convert to identifier
-            model = Identifier(model)
+            model = param_to_identifier('model', model)
 
         if_not_exists = p.if_not_exists_or_empty
 
@@ -168,6 +177,8 @@ class MindsDBParser(Parser):
     @_('CREATE SKILL if_not_exists_or_empty identifier USING kw_parameter_list')
     def create_skill(self, p):
         params = p.kw_parameter_list
+        if 'type' not in params:
+            raise ParsingException("CREATE SKILL requires the parameter 'type'")
 
         return CreateSkill(
             name=p.identifier,
@@ -208,14 +219,16 @@ class MindsDBParser(Parser):
     @_('CREATE CHATBOT identifier USING kw_parameter_list')
     def create_chat_bot(self, p):
         params = p.kw_parameter_list
+        if 'database' not in params:
+            raise ParsingException("CREATE CHATBOT requires the parameter 'database'")
 
-        database = Identifier(params.pop('database'))
+        database = param_to_identifier('database', params.pop('database'))
         model_param = params.pop('model', None)
         agent_param = params.pop('agent', None)
-        model = Identifier(
-            model_param) if model_param is not None else None
-        agent = Identifier(
-            agent_param) if agent_param is not None else None
+        model = param_to_identifier(
+            'model', model_param) if model_param is not None else None
+        agent = param_to_identifier(
+            'agent', agent_param) if agent_param is not None else None
         return CreateChatBot(
             name=p.identifier,
             database=database,
@@ -1612,7 +1625,10 @@ class MindsDBParser(Parser):
 
     @_('MINUS constant %prec UMINUS')
     def constant(self, p):
-        return Constant(-p.constant.value)
+        value = p.constant.value
+        if not isinstance(value, (int, float)):
+            raise ParsingException(f'Unary minus requires a number, got: {p.constant.to_string()}')
+        return Constant(-value)
 
     # update fields list
     @_('update_parameter',
